@@ -249,6 +249,14 @@ func init() {
 		}
 		return w.newOrSame(r)
 	}
+	// tmul:<a>:<b>:<axesA>:<axesB> : Dense.TensorMul (general contraction); the axes slices are copies
+	progOps["tmul"] = func(w *world, f []string) string {
+		r, err := w.ts[atoi(f[1])].TensorMul(w.ts[atoi(f[2])], ints(f[3]), ints(f[4]))
+		if err != nil {
+			return "err"
+		}
+		return w.newOrSame(r)
+	}
 	progOps["inner"] = func(w *world, f []string) string {
 		v, err := w.ts[atoi(f[1])].Inner(w.ts[atoi(f[2])])
 		if err != nil {
